@@ -208,9 +208,34 @@ def check(src, rep):
     m = w.module(MOD)
     el, bodyg, frame = m.env.get("Element"), m.env.get("NotificationBody"), m.env.get("LlcPdu")
     rep.require(all(isinstance(x, N) for x in (el, bodyg, frame)), "kamstrup grammars could not be extracted")
-    pad = [s for s in el.a["subs"] if isinstance(s, N)][-1]
-    greedy = [n for n in all_nodes(pad) if n.kind == "GreedyRange"]
-    okpad = bool(greedy) and all(isinstance(g.a["sub"], N) and g.a["sub"].kind == "Const" and isinstance(g.a["sub"].a["value"], EnumVal) and g.a["sub"].a["value"].value == 0 for g in greedy)
+    from sa.consir import consumption, first_octets
+    alts = [a_ for a_ in el.a["subs"] if isinstance(a_, N)] if el.kind == "Select" else [el]
+    okpad, pad = True, el
+    for alt in alts:
+        # every kind of element ends with a member that consumes nothing but null-data octets, any number of them
+        members = [s for s in alt.a.get("subs", []) if isinstance(s, N)] if alt.kind in ("Struct",) else []
+        pad = members[-1] if members else alt
+        greedy = [n for n in all_nodes(pad) if n.kind == "GreedyRange"]
+        def only_null(n_):
+            """the node consumes nothing but null-data tag octets"""
+            if n_.kind == "Peek":
+                return True
+            if n_.kind in ("Struct", "FocusedSeq"):
+                return all(only_null(s_) for s_ in n_.a.get("subs", []) if isinstance(s_, N))
+            if n_.kind in ("If", "GreedyRange"):
+                return isinstance(n_.a.get("sub"), N) and only_null(n_.a["sub"])
+            if n_.kind == "Const":
+                return isinstance(n_.a.get("value"), EnumVal) and n_.a["value"].value == 0
+            return n_.kind in ("Pass", "Computed", "Check")
+        try:
+            lo = consumption(pad)[0]
+        except Exception:  # noqa
+            lo = None
+        ok_alt = bool(members) and bool(greedy) and only_null(pad) and lo == 0 and \
+            all(isinstance(g.a["sub"], N) and g.a["sub"].kind == "Const" and isinstance(g.a["sub"].a["value"], EnumVal) and g.a["sub"].a["value"].value == 0 for g in greedy)
+        if not ok_alt:
+            okpad = False
+            break
     if okpad:
         rep.ok("R5", "null padding", "any number of null-data octets after an element is skipped (GreedyRange of the null tag)")
     else:
